@@ -383,7 +383,7 @@ def main(tier, pid='C18', ev=None):
     finally:
         shutil.rmtree(work, True)
 
-REPLAY_PROG = c17.REPLAY_PROG.replace('from cvxopt import matrix, blas', 'from cvxopt import matrix, blas, lapack').replace("ns = {'matrix': matrix, 'blas': blas}", "ns = {'matrix': matrix, 'blas': blas, 'lapack': lapack}")
+REPLAY_PROG = c17.REPLAY_PROG        # (imports lapack as well)
 def replay_call(callspec, timeout=300):
     old = c17.REPLAY_PROG
     c17.REPLAY_PROG = REPLAY_PROG
